@@ -558,6 +558,8 @@ class Lib:
             return self.dtype_eq(a, b)
         if isinstance(a, ClassVal) and isinstance(b, ClassVal):
             return a.name == b.name
+        if isinstance(a, SymSetLen) or isinstance(b, SymSetLen):
+            return _symset_len_eq(a, b) if isinstance(a, SymSetLen) else _symset_len_eq(b, a)
         raise EngineError(f"equality of {type(a).__name__} and {type(b).__name__}")
 
     def value_contains(self, interp, container, item):
@@ -738,10 +740,12 @@ class Lib:
         if meth == "dot":
             return A.dot(a, _arr(args[0], interp))
         if meth == "any":
-            return sv.cmp(">", A.reduce_sum(A.astype(a, "bool") if a.dtype != "bool" else a, axis), 0)
+            r = A.reduce_sum(A.astype(a, "bool") if a.dtype != "bool" else a, axis)
+            return A.binop(">", r, 0) if isinstance(r, A.Arr) else sv.cmp(">", r, 0)
         if meth == "all":
             nb = A.unop(sv.not_, A.astype(a, "bool") if a.dtype != "bool" else a, dtype="bool")
-            return sv.cmp("==", A.reduce_sum(nb, axis), 0)
+            r = A.reduce_sum(nb, axis)
+            return A.binop("==", r, 0) if isinstance(r, A.Arr) else sv.cmp("==", r, 0)
         if meth == "item":
             return a.get(tuple(0 for _ in a.shape))
         if meth == "argsort":
@@ -765,7 +769,14 @@ class Lib:
             elif is_conc(known) and known == 1:
                 missing = total
             else:
-                raise EngineError("reshape -1 with symbolic sizes")
+                # symbolic sizes: the missing dimension is the concrete q with total == q * known (syntactically), if any
+                missing = None
+                for q in range(1, 33):
+                    if A.dim_eq_syntactic(total, sv.mul(q, known)):
+                        missing = q
+                        break
+                if missing is None:
+                    raise EngineError("reshape -1 with symbolic sizes")
             newshape = [missing if (is_conc(d) and d == -1) else d for d in newshape]
         newtotal = 1
         for d in newshape:
@@ -939,6 +950,29 @@ class SymSetLen:
         self.s = s
 
 
+def _symset_len_eq(sl, k):
+    """len({e(s) for s in <symbolic sequence>}) == 1 when the element does not depend on the position: true iff the sequence is
+    non-empty.  (Elements that do depend on the position are outside the model.)"""
+    k = norm(k)
+    if not (is_conc(k) and int(k) == 1):
+        raise EngineError("len(set(symbolic sequence)) compared with a value other than 1")
+    seq = sl.s.seq
+    e1, e2 = seq.fn(sv.fresh_int("sa")), seq.fn(sv.fresh_int("sb"))
+
+    def same(x, y):
+        x, y = norm(x), norm(y)
+        if isinstance(x, tuple) and isinstance(y, tuple):
+            return len(x) == len(y) and all(same(p, q) for p, q in zip(x, y))
+        if isinstance(x, SV) and isinstance(y, SV):
+            return x.t.eq(y.t)
+        if is_conc(x) and is_conc(y):
+            return x == y
+        return False
+    if not same(e1, e2):
+        raise EngineError("len(set(...)) == 1 over a symbolic sequence whose elements depend on the position")
+    return sv.cmp(">=", seq.length, 1)
+
+
 def _b_int(interp, v=0, *a):
     v = norm(v)
     if isinstance(v, A.Arr):
@@ -1053,8 +1087,10 @@ def _b_isinstance(interp, v, cls):
     for n in names:
         if isinstance(v, Ref) and v.kind == "obj" and v.cls and v.cls.name == n:
             return True
-        if n == "int" and ((isinstance(v, int) and not isinstance(v, bool)) or (isinstance(v, SV) and v.is_int)):
+        if n == "bool" and (isinstance(v, bool) or (isinstance(v, SV) and v.is_bool)):
             return True
+        if n == "int" and (isinstance(v, int) or (isinstance(v, SV) and (v.is_int or v.is_bool))):
+            return True      # bool is a subclass of int
         if n == "float" and (isinstance(v, Fraction) or (isinstance(v, SV) and v.is_real)):
             return True
         if n == "str" and isinstance(v, str):
